@@ -41,7 +41,7 @@ structure RS where
   frameTree : STree := .node 0 0 0 []    -- tree the mouse handler hit-tests (spec-sorted / first layout)
   focusMoved : Bool := false
   hover : List Nat := []
-  ghost : Bool := false                  -- root got a MouseEnter from a terminal FocusIn and no Leave since
+  ghost : Bool := false                  -- the root widget is in the hit list by a terminal FocusIn (no mouse event / FocusOut since)
   pointer : Option (Int × Int) := none
   done : Bool := false
   deriving Inhabited
@@ -63,7 +63,7 @@ def focusChecks (prevF : Nat) (script : List Cmd) (now : Impl) : Option String :
                else some s!"FAIL focus: last FocusIn went to {f'} but focused widget is {now.f.getD 0}"
   | none =>
     if focusOutAnsweredWithFocus script now.log
-    then some "FAIL focus-balance [refocus-in-focusout]: a FocusOut handler returned a focus command; FocusOut/FocusIn no longer pair up"
+    then some "FAIL focus-balance: a FocusOut handler returned a focus command; FocusOut/FocusIn no longer pair up"
     else some "FAIL focus-balance: FocusOut/FocusIn notifications do not pair up"
 
 /-- After a step: clear `consume` if the sentinel was dispatched. -/
@@ -71,20 +71,17 @@ def afterSentinel (s : St) (always : Bool) : St :=
   if always || !s.quit then { s with consume := false } else s
 
 /-- Hover verdict of one op. `expected` = the widgets that must be entered after the op when the
-property determines them. Returns (message, new hover set, new ghost flag). -/
-def hoverVerdict (_d : RS) (ghostNow : Bool) (hov : List Nat) (hv : Option (Nat × String))
-    (expected : Option (List Nat)) : Option String × List Nat × Bool :=
-  let tag := if ghostNow then " [terminal-focus-in]" else ""
-  let why := if ghostNow then " (a terminal FocusIn sent the root widget a MouseEnter that the hit list does not know about)" else ""
+property determines them. Returns (message, new hover set). -/
+def hoverVerdict (hov : List Nat) (hv : Option (Nat × String)) (expected : Option (List Nat)) :
+    Option String × List Nat :=
   match hv with
-  | some (w, what) => (some s!"FAIL hover{tag}: widget {w}: {what}{why}", expected.getD hov,
-      if expected.isSome then false else ghostNow)
+  | some (w, what) => (some s!"FAIL hover: widget {w}: {what}", expected.getD hov)
   | none =>
     match expected with
     | some e =>
-      if sameSet hov e then (none, hov, ghostNow)
-      else (some s!"FAIL hover{tag}: entered widgets {hov} but the widgets under the pointer are {e}{why}", e, false)
-    | none => (none, hov, ghostNow)
+      if sameSet hov e then (none, hov)
+      else (some s!"FAIL hover: entered widgets {hov} but the widgets that must be entered are {e}", e)
+    | none => (none, hov)
 
 def stepEv (d : RS) (toks : Toks) (impl : String) : Option (RS × String) := do
   let now ← parseImpl impl
@@ -113,23 +110,18 @@ def stepEv (d : RS) (toks : Toks) (impl : String) : Option (RS × String) := do
     let (hov, hv) := hoverScan d.hover tr
     let fmsg := focusChecks pf script now
     let cmsg := flagChecks d.prev.x atoms now false
-    let moved := d.focusMoved || hasFocusIn now.log
     match ev with
     | .key _ | .other _ =>
       let e : Ev := match ev with | .key k => .key k | .other k => .custom k | _ => .init
-      let c1 := conforms e pf (planOf o.captures d.prev.p .focusTgt) tr
+      let ep := expectedPath d.root d.lastTree pf
       let routeMsg : Option String :=
-        if !c1 then some s!"FAIL routing: calls do not follow capture/target/bubble over path {d.prev.p}"
-        else if !d.focusMoved then none
-        else match chain pf d.lastTree with
-          | none => none
-          | some _ =>
-            let ep := expectedPath d.root d.lastTree pf
-            if conforms e pf (planOf o.captures ep .focusTgt) tr then none
-            else some s!"FAIL stale-path: focus moved to {pf} by a command since the last frame; routed over the old path {d.prev.p}, drawn chain is {ep}"
-      let (hm, hov', gh) := hoverVerdict d d.ghost hov hv none
-      pure (finish { d with hover := hov', ghost := gh, focusMoved := moved } m
-        [routeMsg.filter (!·.startsWith "FAIL stale"), cmsg, hm, fmsg, routeMsg])
+        if conforms e pf (planOf o.captures ep .focusTgt) tr then none
+        else if conforms e pf (planOf o.captures d.prev.p .focusTgt) tr then
+          some s!"FAIL stale-path: routed over the stored path {d.prev.p}, but the drawn chain of the focused widget {pf} is {ep}"
+        else some s!"FAIL routing: calls do not follow capture/target/bubble over the drawn chain {ep} of the focused widget {pf}"
+      let (hm, hov') := hoverVerdict hov hv none
+      pure (finish { d with hover := hov' } m
+        [routeMsg, cmsg, hm, fmsg, pinvMsg d.root d.lastTree now])
     | .mouse c r =>
       let e := Ev.mouse c r
       let hits := underRoot d.frameTree c r
@@ -140,15 +132,19 @@ def stepEv (d : RS) (toks : Toks) (impl : String) : Option (RS × String) := do
         | some tg =>
           if conforms e pf (planOf o.captures (hits.map (·.w)) (.tgt tg.w)) routed then none
           else some s!"FAIL mouse-routing: calls do not follow capture/target/bubble over the surfaces under the pointer {hitsStr hits}"
-      let (hm, hov', gh) := hoverVerdict d d.ghost hov hv (some (hits.map (·.w)))
-      pure (finish { d with hover := hov', ghost := gh, focusMoved := moved, pointer := some (c, r) } m
-        [routeMsg, cmsg, hm, fmsg])
+      let (hm, hov') := hoverVerdict hov hv (some (hits.map (·.w)))
+      pure (finish { d with hover := hov', ghost := false, pointer := some (c, r) } m
+        [routeMsg, cmsg, hm, fmsg, pinvMsg d.root d.lastTree now])
     | .focusIn =>
-      let (hm, hov', _) := hoverVerdict d true hov hv none
-      pure (finish { d with hover := hov', ghost := d.ghost || !d.hover.contains d.root, focusMoved := moved } m [cmsg, hm, fmsg])
+      -- terminal FocusIn: the root widget is entered now (notified only if it was not), nobody else changes
+      let want := if d.hover.contains d.root then d.hover else d.root :: d.hover
+      let (hm, hov') := hoverVerdict hov hv (some want)
+      pure (finish { d with hover := hov', ghost := d.ghost || !d.hover.contains d.root } m
+        [cmsg, hm, fmsg, pinvMsg d.root d.lastTree now])
     | .focusOut =>
-      let (hm, hov', gh) := hoverVerdict d d.ghost hov hv (some [])
-      pure (finish { d with hover := hov', ghost := gh, focusMoved := moved, pointer := none } m [cmsg, hm, fmsg])
+      let (hm, hov') := hoverVerdict hov hv (some [])
+      pure (finish { d with hover := hov', ghost := false, pointer := none } m
+        [cmsg, hm, fmsg, pinvMsg d.root d.lastTree now])
     | _ => none
   | _ => none
 
@@ -165,32 +161,21 @@ def stepFrame (d : RS) (rest : Toks) (impl : String) : Option (RS × String) := 
   let used := if draws ≥ 2 then t2 else t1
   let sorted := specSort used
   let (hov, hv) := hoverScan d.hover tr
-  -- hover set after the frame = surfaces of the first layout under the pointer
-  -- (no pointer known — before the first mouse event or after terminal focus left — nothing is entered)
+  -- hover set after the frame = surfaces of the first layout under the pointer; no pointer known
+  -- (before the first mouse event or after terminal focus left): nothing is entered, except the root
+  -- widget if a terminal FocusIn arrived since (`ghost`)
   let expected : Option (List Nat) := some (match d.pointer with
     | some (c, r) => (underRoot t1 c r).map (·.w)
-    | none => [])
-  let (hm, hov', gh) := hoverVerdict d d.ghost hov hv expected
-  -- path after the frame: handlers called by mh.update may move the focus before updatePath runs, so
-  -- the focus updatePath saw is the previous one or the receiver of one of the FocusIn calls
-  let cands := pf :: now.log.filterMap fun | .call w .focusIn _ => some w | _ => none
-  let okPath := cands.any fun f =>
-    match chain f sorted with
-    | some _ => now.p == expectedPath d.root sorted f
-    | none => now.p == [d.root]
-  let pathMsg : Option String :=
-    if okPath then none
-    else some s!"FAIL path: path {now.p} is neither the drawn chain of a widget focused during the frame nor [root]"
+    | none => if d.ghost then [d.root] else [])
+  let (hm, hov') := hoverVerdict hov hv expected
+  let gh := d.ghost && d.pointer.isNone
+  -- path after the frame: the drawn chain, in the frame just rendered, of the widget focused at the end
+  let pathMsg := pinvMsg d.root sorted now
   let fmsg := focusChecks pf script now
   let cmsg := flagChecks d.prev.x (executedAtoms script now.log) now true
   let drawMsg := if draws = 0 then some "FAIL frame: no layout" else none
-  -- is the path the chain of the widget focused at the end of the frame?
-  let nf := now.f.getD 0
-  let moved := match chain nf sorted with
-    | some _ => now.p != expectedPath d.root sorted nf
-    | none => nf != d.root
   pure ({ d with model := m, prev := now, done := now.q, lastTree := sorted, frameTree := sorted, hover := hov',
-                 focusMoved := moved, ghost := gh },
+                 ghost := gh },
     s!"{runStr m}\t{impl}\t{firstMsg [drawMsg, cmsg, pathMsg, hm, fmsg]}")
 
 def stepInit (rest : Toks) (impl : String) : Option (RS × String) := do
@@ -209,7 +194,7 @@ def stepInit (rest : Toks) (impl : String) : Option (RS × String) := do
   let routeMsg := if c1 then none else some "FAIL routing: Init not offered capture/target to the root"
   let fmsg := focusChecks root script now
   let d : RS := { ok := true, caps, root, model := m, prev := now, lastTree := .node root 0 0 [], frameTree := t,
-                  focusMoved := hasFocusIn now.log, done := now.q }
+                  done := now.q }
   pure (d, s!"{runStr m}\t{impl}\t{firstMsg [routeMsg, fmsg]}")
 
 def step (d : RS) (line : String) : RS × String :=
